@@ -9,230 +9,225 @@ use emit_core::value::Value;
 
 const LABELS: [&str; 3] = ["x", "y", ""];
 
-/// Symbolic text of up to `NCH` characters drawn from {a, b, U+00E9}; returns (bytes, byte length,
-/// char start offsets incl. end).
-struct Text<const CAP: usize> {
-    b: [u8; CAP],
+/// One text fragment: its own array (concrete base address, symbolic length) holding up to
+/// `maxch` (<= 2) characters drawn from {a, b, U+00E9}.
+#[derive(Clone, Copy)]
+struct Frag {
+    b: [u8; 4],
     n: usize,
-    /// bnd[i] = byte offset of the i-th character boundary; bnd[nch] = n
-    bnd: [usize; 4],
-    nch: usize,
 }
 
-fn sym_text3() -> Text<6> { sym_text(3) }
-
-fn sym_text(maxch: usize) -> Text<6> {
-    let mut t = Text { b: [0u8; 6], n: 0, bnd: [0; 4], nch: 0 };
+fn sym_frag(maxch: usize) -> Frag {
+    let mut f = Frag { b: [0u8; 4], n: 0 };
     let nch: usize = kani::any();
-    kani::assume(nch <= maxch && nch <= 3);
+    kani::assume(nch <= maxch && nch <= 2);
     let mut i = 0;
-    while i < 3 {
+    while i < 2 {
         if i < nch {
             let k: u8 = kani::any();
             kani::assume(k < 3);
-            t.bnd[i] = t.n;
-            if k == 0 { t.b[t.n] = b'a'; t.n += 1; }
-            else if k == 1 { t.b[t.n] = b'b'; t.n += 1; }
-            else { t.b[t.n] = 0xC3; t.b[t.n + 1] = 0xA9; t.n += 2; }
+            if k == 0 { f.b[f.n] = b'a'; f.n += 1; }
+            else if k == 1 { f.b[f.n] = b'b'; f.n += 1; }
+            else { f.b[f.n] = 0xC3; f.b[f.n + 1] = 0xA9; f.n += 2; }
         }
         i += 1;
     }
-    t.nch = nch;
-    t.bnd[nch] = t.n;
-    t
+    f
 }
 
-/// A symbolic template of up to 3 parts over `t`: each part is a hole (symbolic label) or the next
-/// text fragment `t[cut_k..cut_{k+1}]` where cuts are symbolic CHARACTER boundaries (fragments may be
-/// empty, the last text part takes the rest).
-struct Shape {
-    n: usize,            // number of parts 0..=3
+/// A symbolic template of up to 3 parts: each part is a hole (symbolic label from LABELS) or a text
+/// fragment (possibly empty). Adjacent text parts model "the same text split differently".
+struct Tpl {
+    n: usize,
     hole: [bool; 3],
     label: [usize; 3],
-    lo: [usize; 3],      // byte range of text parts
-    hi: [usize; 3],
+    frag: [Frag; 3],
 }
 
-fn sym_shape(t: &Text<6>) -> Shape { sym_shape_n(t, 3) }
-
-fn sym_shape_n(t: &Text<6>, maxparts: usize) -> Shape {
-    let mut s = Shape { n: kani::any(), hole: [false; 3], label: [0; 3], lo: [0; 3], hi: [0; 3] };
-    kani::assume(s.n <= 3 && s.n <= maxparts);
-    let mut cur = 0usize; // char index
+fn sym_tpl(maxparts: usize, maxch: usize) -> Tpl {
+    let mut t = Tpl { n: kani::any(), hole: [false; 3], label: [0; 3], frag: [Frag { b: [0; 4], n: 0 }; 3] };
+    kani::assume(t.n <= 3 && t.n <= maxparts);
     let mut i = 0;
     while i < 3 {
-        if i < s.n {
-            s.hole[i] = kani::any();
-            if s.hole[i] {
+        if i < t.n {
+            t.hole[i] = kani::any();
+            if t.hole[i] {
                 let l: usize = kani::any();
                 kani::assume(l < 3);
-                s.label[i] = l;
+                t.label[i] = l;
             } else {
-                let next: usize = kani::any();
-                kani::assume(next >= cur && next <= t.nch);
-                s.lo[i] = t.bnd[cur];
-                s.hi[i] = t.bnd[next];
-                cur = next;
+                t.frag[i] = sym_frag(maxch);
             }
         }
         i += 1;
     }
-    // all of the text is used (otherwise the meaning would depend on the unused tail: fine, but
-    // then normal forms below are computed from the used ranges only)
-    s
+    t
 }
 
-fn build<'a>(t: &'a Text<6>, s: &Shape) -> [Part<'a>; 3] {
+fn build<'a>(t: &'a Tpl) -> [Part<'a>; 3] {
     let mk = |i: usize| -> Part<'a> {
-        if s.hole[i] {
-            Part::hole_ref(LABELS[s.label[i]])
+        if t.hole[i] {
+            Part::hole_ref(LABELS[t.label[i]])
         } else {
-            Part::text_ref(unsafe { core::str::from_utf8_unchecked(&t.b[s.lo[i]..s.hi[i]]) })
+            Part::text_ref(unsafe { core::str::from_utf8_unchecked(&t.frag[i].b[..t.frag[i].n]) })
         }
     };
     [mk(0), mk(1), mk(2)]
 }
 
-/// Reference equality on normal forms: same holes (labels) in the same order, and the same bytes
-/// between consecutive holes.
-fn ref_eq(ta: &Text<6>, sa: &Shape, tb: &Text<6>, sb: &Shape) -> bool {
-    // walk both part lists, comparing hole sequences and gap texts
-    let mut ia = 0;
-    let mut ib = 0;
-    loop {
-        // gap text ranges: consecutive text parts are consecutive slices, so a gap is [lo of first, hi of last]
-        let mut ga_lo = 0; let mut ga_hi = 0; let mut seen = false;
-        while ia < sa.n && !sa.hole[ia] {
-            if !seen { ga_lo = sa.lo[ia]; seen = true; }
-            ga_hi = sa.hi[ia];
-            ia += 1;
+/// Normal form: hole labels in order, and the concatenated text of each gap (before the first hole,
+/// between holes, after the last).
+struct Norm {
+    holes: usize,
+    labels: [usize; 3],
+    gap: [[u8; 12]; 4],
+    gap_n: [usize; 4],
+}
+
+fn norm(t: &Tpl) -> Norm {
+    let mut m = Norm { holes: 0, labels: [0; 3], gap: [[0; 12]; 4], gap_n: [0; 4] };
+    let mut i = 0;
+    while i < 3 {
+        if i < t.n {
+            if t.hole[i] {
+                m.labels[m.holes] = t.label[i];
+                m.holes += 1;
+            } else {
+                let g = m.holes;
+                let mut k = 0;
+                while k < 4 {
+                    if k < t.frag[i].n {
+                        m.gap[g][m.gap_n[g]] = t.frag[i].b[k];
+                        m.gap_n[g] += 1;
+                    }
+                    k += 1;
+                }
+            }
         }
-        let mut gb_lo = 0; let mut gb_hi = 0; let mut seenb = false;
-        while ib < sb.n && !sb.hole[ib] {
-            if !seenb { gb_lo = sb.lo[ib]; seenb = true; }
-            gb_hi = sb.hi[ib];
-            ib += 1;
-        }
-        let la = ga_hi - ga_lo;
-        let lb = gb_hi - gb_lo;
-        if la != lb { return false; }
+        i += 1;
+    }
+    m
+}
+
+fn ref_eq(a: &Tpl, b: &Tpl) -> bool {
+    let (x, y) = (norm(a), norm(b));
+    if x.holes != y.holes { return false; }
+    let mut i = 0;
+    while i < 3 {
+        if i < x.holes && x.labels[i] != y.labels[i] { return false; }
+        i += 1;
+    }
+    let mut g = 0;
+    while g < 4 {
+        if x.gap_n[g] != y.gap_n[g] { return false; }
         let mut k = 0;
-        while k < la {
-            if ta.b[ga_lo + k] != tb.b[gb_lo + k] { return false; }
+        while k < 12 {
+            if k < x.gap_n[g] && x.gap[g][k] != y.gap[g][k] { return false; }
             k += 1;
         }
-        let a_end = ia >= sa.n;
-        let b_end = ib >= sb.n;
-        if a_end || b_end { return a_end && b_end; }
-        // both at a hole
-        if sa.label[ia] != sb.label[ib] { return false; }
-        ia += 1;
-        ib += 1;
+        g += 1;
     }
+    true
 }
 
 fn eq_body(maxch: usize, maxparts_a: usize, maxparts_b: usize) {
-    let ta = sym_text(maxch);
-    let tb = sym_text(maxch);
-    let sa = sym_shape_n(&ta, maxparts_a);
-    let sb = sym_shape_n(&tb, maxparts_b);
-    let pa = build(&ta, &sa);
-    let pb = build(&tb, &sb);
-    let a = Template::new_ref(&pa[..sa.n]);
-    let b = Template::new_ref(&pb[..sb.n]);
-    let want = ref_eq(&ta, &sa, &tb, &sb);
+    let ta = sym_tpl(maxparts_a, maxch);
+    let tb = sym_tpl(maxparts_b, maxch);
+    let pa = build(&ta);
+    let pb = build(&tb);
+    let a = Template::new_ref(&pa[..ta.n]);
+    let b = Template::new_ref(&pb[..tb.n]);
+    let want = ref_eq(&ta, &tb);
     let got = a == b;
     assert!(got == want, "equality is equality of normal forms");
-    kani::cover!(want && sa.n != sb.n, "equal with different fragmentation");
-    kani::cover!(want && sa.n == 2 && sb.n == 1 && !sa.hole[0] && sa.hole[1] && sa.hi[0] == sa.lo[0], "empty text before hole");
+    kani::cover!(want && ta.n != tb.n, "equal with different fragmentation");
+    kani::cover!(want && ta.n == 2 && tb.n == 1 && !ta.hole[0] && ta.hole[1] && ta.frag[0].n == 0, "opt:empty text before hole");
     kani::cover!(!want, "unequal");
-    kani::cover!(ta.n >= 3 && tb.n >= 3 && ta.b[0] == 0xC3 && tb.b[0] == b'a', "opt:multi-byte vs ascii offsets");
+    kani::cover!(ta.n >= 1 && tb.n >= 1 && !ta.hole[0] && !tb.hole[0] && ta.frag[0].n >= 2 && tb.frag[0].n >= 1 && ta.frag[0].b[0] == 0xC3 && tb.frag[0].b[0] == b'a', "opt:multi-byte vs ascii offsets");
 }
 
-/// <= 2 characters per side, 3 parts vs 2 parts (and the mirror image below)
+/// 2 parts vs 2 parts, <= 2 characters per fragment (covers: empty text next to a hole, fragments
+/// of different byte lengths facing each other, multi-byte characters)
 #[kani::proof]
-#[kani::unwind(12)]
-pub fn c16_q_tpl_eq_by_meaning_3x2() { eq_body(2, 3, 2); }
+#[kani::unwind(13)]
+pub fn c16_q_tpl_eq_by_meaning_2x2() { eq_body(2, 2, 2); }
+
+/// 3 parts vs 2 parts and the mirror image, <= 1 character per fragment
+#[kani::proof]
+#[kani::unwind(13)]
+pub fn c16_q_tpl_eq_by_meaning_3x2() { eq_body(1, 3, 2); }
 
 #[kani::proof]
-#[kani::unwind(12)]
-pub fn c16_q_tpl_eq_by_meaning_2x3() { eq_body(2, 2, 3); }
+#[kani::unwind(13)]
+pub fn c16_q_tpl_eq_by_meaning_2x3() { eq_body(1, 2, 3); }
 
-/// <= 3 characters per side, 3 parts each
+/// 3 parts each, <= 2 characters per fragment
 #[kani::proof]
-#[kani::unwind(14)]
-pub fn c16_t_tpl_eq_by_meaning_3x3() { eq_body(3, 3, 3); }
+#[kani::unwind(13)]
+pub fn c16_t_tpl_eq_by_meaning_3x3() { eq_body(2, 3, 3); }
 
 /// symmetric and reflexive
 #[kani::proof]
-#[kani::unwind(12)]
+#[kani::unwind(13)]
 pub fn c16_q_tpl_eq_symmetric() {
-    let ta = sym_text(2);
-    let tb = sym_text(2);
-    let sa = sym_shape_n(&ta, 3);
-    let sb = sym_shape_n(&tb, 2);
-    let pa = build(&ta, &sa);
-    let pb = build(&tb, &sb);
-    let a = Template::new_ref(&pa[..sa.n]);
-    let b = Template::new_ref(&pb[..sb.n]);
+    let ta = sym_tpl(2, 1);
+    let tb = sym_tpl(2, 1);
+    let pa = build(&ta);
+    let pb = build(&tb);
+    let a = Template::new_ref(&pa[..ta.n]);
+    let b = Template::new_ref(&pb[..tb.n]);
     assert!((a == b) == (b == a), "symmetric");
     assert!(a == a, "reflexive");
-    kani::cover!(a == b && sa.n != sb.n, "equal with different fragmentation");
+    kani::cover!(a == b && ta.n != tb.n, "equal with different fragmentation");
 }
 
 /// literal (single text part, `Template::literal_ref`) against a multi-part template
 #[kani::proof]
-#[kani::unwind(12)]
+#[kani::unwind(13)]
 pub fn c16_q_tpl_eq_literal() {
-    let ta = sym_text(3);
-    let tb = sym_text(3);
-    let sb = sym_shape(&tb);
-    let pb = build(&tb, &sb);
-    let a = Template::literal_ref(unsafe { core::str::from_utf8_unchecked(&ta.b[..ta.n]) });
-    let b = Template::new_ref(&pb[..sb.n]);
-    let sa = Shape { n: 1, hole: [false; 3], label: [0; 3], lo: [0, 0, 0], hi: [ta.n, 0, 0] };
-    let want = ref_eq(&ta, &sa, &tb, &sb);
+    let lit = sym_frag(2);
+    let tb = sym_tpl(3, 1);
+    let pb = build(&tb);
+    let a = Template::literal_ref(unsafe { core::str::from_utf8_unchecked(&lit.b[..lit.n]) });
+    let b = Template::new_ref(&pb[..tb.n]);
+    let ta = Tpl { n: 1, hole: [false; 3], label: [0; 3], frag: [lit, Frag { b: [0; 4], n: 0 }, Frag { b: [0; 4], n: 0 }] };
+    let want = ref_eq(&ta, &tb);
     assert!((a == b) == want);
-    kani::cover!(want && sb.n == 3, "literal equals three fragments");
+    assert!((b == a) == want);
+    kani::cover!(want && tb.n == 3, "literal equals three fragments");
     kani::cover!(!want, "unequal");
 }
 
-/// transitivity on three templates over ASCII+non-ASCII text of <= 2 chars
+/// transitivity on three templates
 #[kani::proof]
-#[kani::unwind(12)]
+#[kani::unwind(13)]
 pub fn c16_t_tpl_eq_transitive() {
-    let ta = sym_text(2);
-    let tb = sym_text(2);
-    let tc = sym_text(2);
-    let sa = sym_shape_n(&ta, 2);
-    let sb = sym_shape_n(&tb, 3);
-    let sc = sym_shape_n(&tc, 2);
-    let pa = build(&ta, &sa);
-    let pb = build(&tb, &sb);
-    let pc = build(&tc, &sc);
-    let a = Template::new_ref(&pa[..sa.n]);
-    let b = Template::new_ref(&pb[..sb.n]);
-    let c = Template::new_ref(&pc[..sc.n]);
+    let ta = sym_tpl(2, 1);
+    let tb = sym_tpl(3, 1);
+    let tc = sym_tpl(2, 1);
+    let pa = build(&ta);
+    let pb = build(&tb);
+    let pc = build(&tc);
+    let a = Template::new_ref(&pa[..ta.n]);
+    let b = Template::new_ref(&pb[..tb.n]);
+    let c = Template::new_ref(&pc[..tc.n]);
     if a == b && b == c {
         assert!(a == c, "transitive");
     }
-    assert!(a == a, "reflexive");
-    kani::cover!(a == b && b == c && sa.n != sc.n, "chain");
+    kani::cover!(a == b && b == c && ta.n != tb.n, "chain");
 }
 
 #[kani::proof]
-#[kani::unwind(12)]
+#[kani::unwind(13)]
 pub fn c16_w_tpl_twin_eq_is_partwise() {
     // false claim: equal templates have the same number of parts
-    let ta = sym_text(1);
-    let tb = sym_text(1);
-    let sa = sym_shape_n(&ta, 2);
-    let sb = sym_shape_n(&tb, 2);
-    let pa = build(&ta, &sa);
-    let pb = build(&tb, &sb);
-    let a = Template::new_ref(&pa[..sa.n]);
-    let b = Template::new_ref(&pb[..sb.n]);
-    if a == b { assert!(sa.n == sb.n); }
+    let ta = sym_tpl(2, 1);
+    let tb = sym_tpl(2, 1);
+    let pa = build(&ta);
+    let pb = build(&tb);
+    let a = Template::new_ref(&pa[..ta.n]);
+    let b = Template::new_ref(&pb[..tb.n]);
+    if a == b { assert!(ta.n == tb.n); }
 }
 
 // ---- rendering ----------------------------------------------------------------------------
@@ -278,14 +273,11 @@ impl template::Write for Rec {
 
 fn noop_fmt(_v: Value, _f: &mut core::fmt::Formatter) -> core::fmt::Result { Ok(()) }
 
-/// Render protocol: one writer call per part, in order; text verbatim (same slice); hole -> first
-/// value for the label (through the formatter variant iff one is set) or the label when absent.
-#[kani::proof]
-#[kani::unwind(8)]
-pub fn c16_q_tpl_render_protocol() {
-    let t = sym_text(2);
-    let s = sym_shape(&t);
-    let mut parts = build(&t, &s);
+/// Render protocol: one writer call per part, in order; text verbatim; hole -> first value for the
+/// label (through the formatter variant iff one is set) or the label when absent.
+fn render_protocol(maxparts: usize, by_ref: bool) {
+    let s = sym_tpl(maxparts, 1);
+    let mut parts = build(&s);
     let with_fmt: [bool; 3] = [kani::any(), kani::any(), kani::any()];
     let mut i = 0;
     while i < 3 {
@@ -302,7 +294,7 @@ pub fn c16_q_tpl_render_protocol() {
     let props_arr = [(LABELS[k0], 10i32), (LABELS[k1], 11i32)];
     let props = &props_arr[..np];
     let mut rec = Rec::new();
-    let r = tpl.render(props).write(&mut rec);
+    let r = if by_ref { tpl.by_ref().render(props).write(&mut rec) } else { tpl.render(props).write(&mut rec) };
     assert!(r.is_ok());
     assert!(rec.n == s.n, "one writer call per part");
     let mut i = 0;
@@ -316,40 +308,41 @@ pub fn c16_q_tpl_render_protocol() {
                         assert!(rec.kind[i] == if with_fmt[i] { Call::Fmt } else { Call::Value });
                         assert!(rec.val[i] == v, "first value for the key wins");
                     }
-                    None => assert!(rec.kind[i] == Call::Label),
+                    None => { assert!(rec.kind[i] == Call::Label); }
                 }
                 assert!(rec.len[i] == LABELS[l].len() && (rec.len[i] == 0 || rec.b0[i] == LABELS[l].as_bytes()[0]), "the hole's own label");
             } else {
                 assert!(rec.kind[i] == Call::Text);
-                assert!(rec.len[i] == s.hi[i] - s.lo[i], "text fragment verbatim");
-                assert!(rec.len[i] == 0 || rec.b0[i] == t.b[s.lo[i]]);
+                assert!(rec.len[i] == s.frag[i].n, "text fragment verbatim");
+                assert!(rec.len[i] == 0 || rec.b0[i] == s.frag[i].b[0]);
             }
         }
         i += 1;
     }
-    // by_ref renders identically
-    let mut rec2 = Rec::new();
-    let by = tpl.by_ref();
-    assert!(by.render(props).write(&mut rec2).is_ok());
-    assert!(rec2.n == rec.n);
-    let mut i = 0;
-    while i < 3 {
-        if i < s.n { assert!(rec2.kind[i] == rec.kind[i] && rec2.val[i] == rec.val[i] && rec2.len[i] == rec.len[i]); }
-        i += 1;
-    }
-    kani::cover!(s.n == 3 && s.hole[1] && np == 2 && k0 == k1 && k0 == s.label[1], "duplicate key, hole filled");
+    kani::cover!(s.n >= 2 && s.hole[1] && np == 2 && k0 == k1 && k0 == s.label[1], "duplicate key, hole filled");
     kani::cover!(s.n >= 1 && s.hole[0] && np == 0, "absent property");
     kani::cover!(s.n >= 1 && s.hole[0] && with_fmt[0] && np >= 1 && k0 == s.label[0], "formatter path");
 }
+
+#[kani::proof]
+#[kani::unwind(8)]
+pub fn c16_q_tpl_render_protocol_2parts() { render_protocol(2, false); }
+
+#[kani::proof]
+#[kani::unwind(8)]
+pub fn c16_q_tpl_render_protocol_by_ref() { render_protocol(2, true); }
+
+#[kani::proof]
+#[kani::unwind(8)]
+pub fn c16_t_tpl_render_protocol_3parts() { render_protocol(3, false); }
 
 /// Default text rendering (`Display` of `Render`, i.e. the `fmt::Formatter` writer): text values are
 /// written verbatim, absent holes as `{label}`.
 #[kani::proof]
 #[kani::unwind(10)]
 pub fn c16_q_tpl_render_display() {
-    let t = sym_text(2);
-    let s = sym_shape(&t);
-    let parts = build(&t, &s);
+    let s = sym_tpl(3, 1);
+    let parts = build(&s);
     let tpl = Template::new_ref(&parts[..s.n]);
     let k0: usize = kani::any();
     kani::assume(k0 < 3);
@@ -375,7 +368,7 @@ pub fn c16_q_tpl_render_display() {
                     let _ = exp.write_str("}");
                 }
             } else {
-                let _ = exp.write_str(unsafe { core::str::from_utf8_unchecked(&t.b[s.lo[i]..s.hi[i]]) });
+                let _ = exp.write_str(unsafe { core::str::from_utf8_unchecked(&s.frag[i].b[..s.frag[i].n]) });
             }
         }
         i += 1;
